@@ -42,10 +42,11 @@ type c08Cfg struct {
 	Stall    int // per mille of block requests that are held for a moment
 	Fail     int // per mille of first requests for a block that are answered 500 (the sync fails)
 	IdleTTL  int // microseconds; >0: idle-handler time-to-live far shorter than a sync takes
+	Remove   bool // the application calls RemoveHandler for the publishers now and then, whatever they are doing
 }
 
 func (k c08Cfg) String() string {
-	return fmt.Sprintf("publishers=%d max-async=%d explicit-syncs=%v bursts=%d tap-delay=%d/1000 stall=%d/1000 last-known-baseline=%v explicit-timeouts=%v failing-requests=%d/1000 idle-handler-ttl=%dus", k.K, k.MaxAsync, k.Explicit, k.Bursts, k.Delay, k.Stall, k.LastKnown, k.Timeouts, k.Fail, k.IdleTTL)
+	return fmt.Sprintf("publishers=%d max-async=%d explicit-syncs=%v bursts=%d tap-delay=%d/1000 stall=%d/1000 last-known-baseline=%v explicit-timeouts=%v failing-requests=%d/1000 idle-handler-ttl=%dus remove-handler-calls=%v", k.K, k.MaxAsync, k.Explicit, k.Bursts, k.Delay, k.Stall, k.LastKnown, k.Timeouts, k.Fail, k.IdleTTL, k.Remove)
 }
 
 func runC08(c *vf.Ctx) {
@@ -74,6 +75,12 @@ func c08Run(c *vf.Ctx, sub string, explicit, lastKnown bool) {
 		k := c08Cfg{LastKnown: lastKnown, Timeouts: explicit && r.Intn(2) == 0, K: 1 + r.Intn(4), Explicit: explicit, Bursts: 2 + r.Intn(4), Delay: []int{0, 100, 300, 600}[r.Intn(4)], Stall: []int{0, 100, 300}[r.Intn(3)]}
 		if !explicit && r.Intn(2) == 0 {
 			k.Fail = []int{60, 150, 300}[r.Intn(3)]
+		}
+		if r.Intn(5) == 0 {
+			k.Remove = true
+			if k.Stall == 0 {
+				k.Stall = 300
+			}
 		}
 		if r.Intn(4) == 0 {
 			// the idle-handler cleaner runs many times while syncs (held at the publisher) are in progress
@@ -372,7 +379,30 @@ func c08One(c *vf.Ctx, sub string, i int, r *rand.Rand, k c08Cfg, ids []Ident) {
 			}(p)
 		}
 	}
+	stopRemove := make(chan struct{})
+	var rmWG sync.WaitGroup
+	if k.Remove {
+		rmWG.Add(1)
+		rr4 := rand.New(rand.NewSource(r.Int63()))
+		go func() {
+			defer rmWG.Done()
+			n := 0
+			for {
+				select {
+				case <-stopRemove:
+					c.Add("remove_handler_calls", int64(n))
+					return
+				default:
+				}
+				s.RemoveHandler(pubs[rr4.Intn(len(pubs))].id.ID)
+				n++
+				time.Sleep(time.Duration(100+rr4.Intn(1500)) * time.Microsecond)
+			}
+		}()
+	}
 	wg.Wait()
+	close(stopRemove)
+	rmWG.Wait()
 	// ---- logical quiescence: every accepted announcement was received by the watcher, every handling
 	// goroutine that was started has exited, no request is open anywhere. (The deadline only classifies.)
 	quiet := false
@@ -603,6 +633,18 @@ func c08One(c *vf.Ctx, sub string, i int, r *rand.Rand, k c08Cfg, ids []Ident) {
 				last = lp
 			}
 		}
+		if k.LastKnown {
+			// the advertisement the application named as last known, and everything older, is neither reported nor requested
+			if seen[0] > 0 {
+				c.Fail(sub, i, "last-known-advertisement-reported-again", fmt.Sprintf("publisher P%d advertisement #0 (the last known sync) reported %d time(s); hooks per sync: %s", x, seen[0], strings.Join(perSync, " ")), wit())
+			}
+			for _, q := range BlockRequests(p.front.Log()) {
+				if q == p.chain.Cids[0].String() {
+					c.Fail(sub, i, "last-known-advertisement-requested", fmt.Sprintf("publisher P%d: the block of the last known sync was requested from the publisher", x), wit())
+					break
+				}
+			}
+		}
 		for pos := 1; pos <= last; pos++ {
 			if seen[pos] == 1 {
 				continue
@@ -666,6 +708,9 @@ func c08One(c *vf.Ctx, sub string, i int, r *rand.Rand, k c08Cfg, ids []Ident) {
 	}
 	if k.IdleTTL > 0 {
 		c.Inc("runs_with_idle_handler_ttl_shorter_than_a_sync")
+	}
+	if k.Remove {
+		c.Inc("runs_with_remove_handler_calls")
 	}
 	if k.Fail > 0 {
 		c.Inc("runs_with_failing_syncs")
